@@ -629,3 +629,6 @@ def run(ctx):
     # "fails with OOM in exactly the first tick its demand exceeds its allocation": the frozen container is ended by the pool's killer, which
     # therefore has to run in every tick, after the containers ticked and before the ended ones are collected (C04#8)
     pool.ob_phases(ctx, 5)
+    # the memory a container holds in a tick is what the generator set: the setter stores the value given (and books the difference), unconditionally (C04#2)
+    from . import c04
+    c04.check_delta(Renumber(ctx, {2: 4}), 2)
